@@ -241,8 +241,13 @@ def run_units(units, repo, tier="quick", seed=0, tag="x", timeout=None, filters=
                 o["time_s"] = pr["time_s"]
                 o["checks"] = pr["checks"]
                 if pr["status"] == "failed":
-                    real = [fc for fc in pr["failed_checks"]]
-                    if not real:
+                    real = [fc for fc in pr["failed_checks"] if "unwinding assertion" not in fc["desc"]]
+                    if not real and pr["failed_checks"]:
+                        o["status"] = "undecided"
+                        o["detail"] = "unwinding bound too small for this tree (unwinding assertion failed): bound exceeded, not a counterexample"
+                        r.status = "undecided"
+                        r.reason += "%s: unwinding assertion; " % h["name"]
+                    elif not real:
                         o["status"] = "undecided"
                         o["detail"] = "CBMC reported failure without a failed check"
                         r.status = "undecided"
